@@ -392,6 +392,7 @@ func (fx *FuncCtx) enterLoop(li *loopInfo, pre *State) *State {
 			fx.seed("(+ " + nv.T + " 1)")
 		}
 	}
+	fx.rangeIndexFacts(li, st)
 	li.headSt = st.clone()
 	if spec != nil {
 		for _, c := range spec.Assumes {
@@ -928,4 +929,57 @@ func (fx *FuncCtx) loopFrame(li *loopInfo, rh, comp, before, after, allocPre str
 	}
 	fx.emit(fmt.Sprintf("(assert %s)", imp(rh, fmt.Sprintf("(forall ((x!lf %s)) (! %s :pattern ((select %s x!lf))))", ks,
 		imp(and(conds...), "(= (select "+after+" x!lf) (select "+before+" x!lf))"), after))))
+}
+
+// rangeIndexFacts: for the compiler-generated `for i := range x` loop the hidden
+// index satisfies -1 <= idx < len(x) (or idx == -1 for an empty x) at the
+// header. The pattern is checked syntactically: the index variable is written
+// only by its initialisation to -1 and by the increment in the header.
+func (fx *FuncCtx) rangeIndexFacts(li *loopInfo, st *State) {
+	h := li.header
+	if h.Comment != "rangeindex.loop" || len(h.Instrs) < 4 {
+		return
+	}
+	ld, ok := h.Instrs[0].(*ssa.UnOp)
+	if !ok || ld.Op != token.MUL {
+		return
+	}
+	al, ok := ld.X.(*ssa.Alloc)
+	if !ok || al.Comment != "rangeindex" || al.Heap {
+		return
+	}
+	inc, ok := h.Instrs[1].(*ssa.BinOp)
+	if !ok || inc.Op != token.ADD || inc.X != ld {
+		return
+	}
+	iff, ok := h.Instrs[len(h.Instrs)-1].(*ssa.If)
+	if !ok {
+		return
+	}
+	cmp, ok := iff.Cond.(*ssa.BinOp)
+	if !ok || cmp.Op != token.LSS || cmp.X != inc {
+		return
+	}
+	stores := 0
+	for _, ref := range *al.Referrers() {
+		if s, ok := ref.(*ssa.Store); ok && s.Addr == al {
+			stores++
+			if c, isC := s.Val.(*ssa.Const); isC && c.Int64() == -1 {
+				continue
+			}
+			if s.Val == inc && s.Block() == h {
+				continue
+			}
+			return
+		}
+	}
+	if stores != 2 {
+		return
+	}
+	cell := st.Cells[al]
+	lenV, ok := fx.vals[cmp.Y]
+	if cell == nil || !ok || cell.T == "" || lenV.T == "" {
+		return
+	}
+	fx.assume(st, fmt.Sprintf("(and (<= (- 1) %s) (or (< %s %s) (= %s (- 1))))", cell.T, cell.T, lenV.T, cell.T))
 }
